@@ -21,7 +21,10 @@ package types
 
 // Verification contracts (comment-only, tag verif) for property C08: decoding a column image that
 // phase one wrote never panics - for ANY bytes: whatever encoding/json puts into the map, every
-// conversion is checked.
+// conversion is checked. Integer columns: the row scanner hands every integer column over as int64 and
+// the column type says nothing about UNSIGNED, so a TINYINT / SMALLINT / INT column may carry any
+// value of the signed or the unsigned range of its width; whatever was written is read back as the
+// same number (in whichever integer type).
 // encoding/json.Unmarshal has no contract: the engine then treats it as an unknown call that may
 // rewrite everything reachable from its arguments (here: the map it fills).
 //@ ext time.Parse
@@ -38,5 +41,6 @@ package types
 //@   modifies heap.all
 //@   at return: assert text-is-kept-as-written: result == nil && localor("value", nil) != nil && isT(value, string) && (columnType == 1 || columnType == 12 || columnType == -1) ==> isT(c.Value, string) && c.Value.(string) == value.(string)
 //@   at return: assert integers-keep-their-width: result == nil && localor("value", nil) != nil && (columnType == 5 || columnType == 4 || columnType == -5) ==> (columnType == 5 && isT(c.Value, int16)) || isT(c.Value, int32) && columnType != -5 || isT(c.Value, int64) || isT(c.Value, float64)
+//@   at return: assert integers-are-read-back-exactly: result == nil && localor("value", nil) != nil && isT(value, float64) && ((columnType == -6 && -128 <= trunc(value.(float64)) && trunc(value.(float64)) <= 255) || (columnType == 5 && -32768 <= trunc(value.(float64)) && trunc(value.(float64)) <= 65535) || (columnType == 4 && -2147483648 <= trunc(value.(float64)) && trunc(value.(float64)) <= 4294967295)) ==> (isT(c.Value, int8) && c.Value.(int8) == trunc(value.(float64))) || (isT(c.Value, int16) && c.Value.(int16) == trunc(value.(float64))) || (isT(c.Value, int32) && c.Value.(int32) == trunc(value.(float64))) || (isT(c.Value, int64) && c.Value.(int64) == trunc(value.(float64)))
 //@   at return: assert numbers-stay-numbers: result == nil && localor("value", nil) != nil && (columnType == -6 || columnType == 7) ==> isT(c.Value, int8) || isT(c.Value, int16) || isT(c.Value, int32) || isT(c.Value, int64) || isT(c.Value, float32) || isT(c.Value, float64)
 //@   nopanic
